@@ -95,7 +95,8 @@ PROFILES = {
     "rejects": dict(
         property="C14",
         oracles=["O14"],
-        weights=_w(reject=14, mutate=6, mutate_w=2, group_by=3, summarize=3, join=3, alias=2, ref=4, select=3, rename=3),
+        weights=_w(reject=14, mutate=6, mutate_w=2, group_by=4, summarize=3, join=3, alias=3, ref=8, select=4, drop=3, rename=3, transfer=2, collect=1),
+        mutate_names=[4, 4, 2, 0],
         mutate_kinds=EW,
         window_kinds=WIN,
         crash_subjects={},
